@@ -8,8 +8,8 @@ EXTENDS BigWigSpec
 B == INSTANCE BigBedSpec
 
 \* mechanism: which source / pass mode a configuration selects (bedgraphtobigwig / bedtobigbed)
-SourceOf(cfg) == IF cfg.threads > 1 /\ cfg.parallel = "yes" THEN "parallel" ELSE "serial"   \* "auto" needs >= 200 MB
-PassesOf(cfg) == IF cfg.single = 1 THEN 1 ELSE 2
+SourceOf(cfg) == IF cfg.stdin = 1 THEN "stdin" ELSE IF cfg.threads > 1 /\ cfg.parallel = "yes" THEN "parallel" ELSE "serial"   \* "auto" needs >= 200 MB
+PassesOf(cfg) == IF cfg.single = 1 \/ cfg.stdin = 1 THEN 1 ELSE 2
 RuntimeOf(cfg) == IF cfg.threads = 1 THEN "current" ELSE "multi"
 BackPathOf(cfg) == IF cfg.bthreads = 1 \/ cfg.restrict # "none" THEN "single" ELSE "multi"
 PathClass(cfg) == <<SourceOf(cfg), PassesOf(cfg), RuntimeOf(cfg), BackPathOf(cfg)>>
